@@ -75,7 +75,9 @@ class SpSolve(SciPySolver):
 
         # several right-hand sides given as a dense ``kvxopt.matrix`` are
         # solved in place, as the SuiteSparse solvers do
-        if isinstance(b, matrix) and b.size[1] > 1:
+        if isinstance(b, matrix) and b.size[1] != 1:
+            if b.size[1] == 0:
+                return np.ravel(b)
             x = np.reshape(spsolve(A_csc, np.array(b)), b.size)
             b[:, :] = matrix(x)
             return np.ravel(x)
